@@ -507,6 +507,16 @@ def leaked_handle_programs():
         for fn, (fsrc, handles) in fresh.items():
             probes = " ".join("echo(measure %s);" % hnd for hnd in handles)
             yield ("escape:leak-%s:%s:flipped-after-release-then-out-of-scope" % (ln, fn), cls + "function main() -> void { qubit pad; { %s x(s); } %s %s }\n" % (lsrc, fsrc, probes), len(handles))
+    # (second hunt, C03/d2) the handle is a field of an object whose destruction was put off (a chain longer than the evaluator's nesting
+    # limit for destructors, 128): the destructor of a sibling creates a qubit before the parked holder's destructor uses the handle
+    for n in (3, 126, 127, 128, 129, 200):
+        yield ("escape:leak-parked-chain-%d:object:x-via-leaked-handle" % n,
+               cls + "static class Sa { public static Lk a; }\n"
+               "class Ph { public qubit h; public constructor(qubit b) -> Ph { this.h = b; } public destructor() -> void { x(this.h); } }\n"
+               "class Qm { public int k = 0; public constructor() -> Qm = default; public destructor() -> void { Sa.a = new Lk(); } }\n"
+               "class Nd { public Nd next; public Ph p; public Qm qq; public constructor() -> Nd { this.next = null; this.p = null; this.qq = null; } }\n"
+               "function main() -> void { qubit pad; Lk a0 = new Lk(); Nd tail = new Nd(); tail.p = new Ph(a0.q); tail.qq = new Qm(); a0 = null; Nd head = tail; tail = null; "
+               "for (int i = 0; i < %d; i = i + 1) { Nd nn = new Nd(); nn.next = head; head = nn; } head = null; echo(measure Sa.a.q); }\n" % n, 1)
     # the handle is a field of the object whose destructor is running; the owner dies inside that destructor
     for fn, (fsrc, handles) in fresh.items():
         probes = " ".join("echo(measure %s);" % hnd for hnd in handles)
